@@ -152,11 +152,24 @@ func (env *ExecEnv) expand(word ast.Word, mode ExpMode) (fields []*field, err er
 				return
 			}
 		case *ast.ArithExp:
-			word, err := env.expand(w.Expr, Arith)
-			if err != nil {
-				return nil, err
+			// tokens which are apart in the source stay apart
+			var b strings.Builder
+			for i := 0; i < len(w.Expr); {
+				j := i + 1
+				for j < len(w.Expr) && !w.Expr[j-1].End().Before(w.Expr[j].Pos()) {
+					j++
+				}
+				word, err := env.expand(w.Expr[i:j], Arith)
+				if err != nil {
+					return nil, err
+				}
+				if i > 0 {
+					b.WriteByte(' ')
+				}
+				b.WriteString(env.join(word...).unquote())
+				i = j
 			}
-			expr := env.join(word...).unquote()
+			expr := b.String()
 			n, err := env.Eval(expr)
 			if err != nil {
 				err := err.(ArithExprError)
